@@ -462,7 +462,12 @@ func (e *Env) field(b Term, name string) Term {
 	for i := 0; i < st.NumFields(); i++ {
 		if st.Field(i).Name() == name {
 			ft := st.Field(i).Type()
-			return Term{S: fmt.Sprintf("(%s %s)", fieldSel(val.Sort, st, i), val.S), Sort: u.ss.sortOf(ft), T: ft}
+			r := Term{S: fmt.Sprintf("(%s %s)", fieldSel(val.Sort, st, i), val.S), Sort: u.ss.sortOf(ft), T: ft}
+			if r.Sort == "Slice" && e.s != nil && e.s.cells != nil && strings.Contains(val.S, "select") {
+				// memory invariant: a slice stored in memory is well formed and refers to an existing region
+				e.s.assume(fmt.Sprintf("(and (wfSlice %s) (<= (sl_arr %s) (+ allocbase %d)))", r.S, r.S, e.s.nalloc))
+			}
+			return r
 		}
 	}
 	fail("no field %s in %s", name, t)
@@ -542,6 +547,20 @@ func (e *Env) callExpr(n *ast.CallExpr) Term {
 		so := u.ss.sortOf(t)
 		_, ub := u.boxFn(so)
 		return Term{S: fmt.Sprintf("(%s (ival %s))", ub, a.S), Sort: so, T: t}
+	case "arrSelect":
+		a, i := e.tr(n.Args[0]), e.tr(n.Args[1])
+		ks, vs, ok := arraySorts(a.Sort)
+		if !ok || ks != i.Sort {
+			fail("select: bad sorts %s / %s", a.Sort, i.Sort)
+		}
+		return Term{S: fmt.Sprintf("(select %s %s)", a.S, i.S), Sort: vs}
+	case "arrStore":
+		a, i, v := e.tr(n.Args[0]), e.tr(n.Args[1]), e.tr(n.Args[2])
+		ks, vs, ok := arraySorts(a.Sort)
+		if !ok || ks != i.Sort || vs != v.Sort {
+			fail("store: bad sorts %s / %s / %s", a.Sort, i.Sort, v.Sort)
+		}
+		return Term{S: fmt.Sprintf("(store %s %s %s)", a.S, i.S, v.S), Sort: a.Sort}
 	case "skolem":
 		// skolem("K", "pkg.Type"): an arbitrary but fixed value of the type ("for all K")
 		l1, ok1 := n.Args[0].(*ast.BasicLit)
@@ -606,4 +625,13 @@ func (e *Env) callExpr(n *ast.CallExpr) Term {
 		return Term{S: fname, Sort: sig.ret}
 	}
 	return Term{S: fmt.Sprintf("(%s %s)", fname, strings.Join(as, " ")), Sort: sig.ret}
+}
+
+// arraySorts splits "(Array K V)".
+func arraySorts(so string) (string, string, bool) {
+	xs, err := parseSx(so)
+	if err != nil || len(xs) != 1 || !xs[0].isList || len(xs[0].list) != 3 || xs[0].list[0].atom != "Array" {
+		return "", "", false
+	}
+	return xs[0].list[1].String(), xs[0].list[2].String(), true
 }
